@@ -685,6 +685,41 @@ Definition sync_cc (m : cidrmap) (key : str) (cached : option ccobj) (out : upd_
 Definition filter_service (m : cidrmap) (svc : cidr) : cidrmap :=
   map (fun kl => (fst kl, map (fun c => occupy_service c svc) (snd kl))) m.
 
+(* ---------- createDefaultClusterCIDR (1183-1254): the --cluster-cidr / --node-cidr-mask-size* flags become a ClusterCIDR
+   object named default-cluster-cidr, without selector, appended to the start-up listing unless an object of that name
+   is listed already.  [dp]: the configured ranges, each with its per-node mask size. ---------- *)
+Definition default_name : str :=   (* default-cluster-cidr *)
+  [100;101;102;97;117;108;116;45;99;108;117;115;116;101;114;45;99;105;100;114].
+Definition min_hb : Z := 4%Z.
+Definition min_int32 : Z := (-2147483648)%Z.
+
+Record dflt_acc := mkDA { da_v4 : fieldparse; da_v6 : fieldparse; da_hb : Z; da_h4 : Z; da_h6 : Z }.
+
+Definition dflt_one (dual : bool) (a : dflt_acc) (cm : cidr * Z) : dflt_acc :=
+  let '(c, mask) := cm in
+  match cf c with
+  | V4 => let h := (32 - mask)%Z in
+          mkDA (FOk c) (da_v6 a) (if negb dual && (min_hb <? h)%Z then h else da_hb a) h (da_h6 a)
+  | V6 => let h := (128 - mask)%Z in
+          mkDA (da_v4 a) (FOk c) (if negb dual && (min_hb <? h)%Z then h else da_hb a) (da_h4 a) h
+  end.
+
+Definition default_cc_obj (dp : list (cidr * Z)) : ccobj :=
+  let dual := Nat.eqb (length dp) 2 in
+  let a := fold_left (dflt_one dual) dp (mkDA FEmpty FEmpty min_hb min_int32 min_int32) in
+  let hb := if dual then
+              if (min_hb <=? da_h4 a)%Z && (da_h4 a <=? da_h6 a)%Z then da_h4 a
+              else if (min_hb <=? da_h6 a)%Z && (da_h6 a <=? 32)%Z then da_h6 a
+              else da_hb a
+            else da_hb a in
+  mkCCObj default_name (da_v4 a) (da_v6 a) hb (Some default_key) [] false 0 0 0.
+
+Definition with_default (dp : list (cidr * Z)) (ccs : list ccobj) : list ccobj :=
+  match dp with
+  | [] => ccs
+  | _ => if existsb (fun o => str_eqb (o_name o) default_name) ccs then ccs else ccs ++ [default_cc_obj dp]
+  end.
+
 (* ---------- construction (158-318): bootstrap of the listed ClusterCIDRs, service ranges, occupation
    of the listed nodes ---------- *)
 Fixpoint bootstrap_ccs (m : cidrmap) (os : list ccobj) (outs : list upd_outcome) : cidrmap * list effect :=
